@@ -35,6 +35,7 @@ macro_rules! vmod {
 vmod!(base, "base.rs");
 pub(crate) use base::*;
 vmod!(c21_alu, "c21_alu.rs");
+vmod!(flow, "c25_flow.rs");
 
 /// Counterexample replay (lib/replay.py): generated concrete-playback tests.
 #[cfg(verif_playback)]
